@@ -74,6 +74,13 @@ class Node:
     kids: typing.List["Node"] = dataclasses.field(default_factory=list)
 
 
+@dataclasses.dataclass
+class Derived:
+    """a dataclass with a field that is not a constructor argument (init=False)"""
+    name: str
+    size: int = dataclasses.field(init=False, default=3)
+
+
 UserId = typing.NewType("UserId", int)
 
 # (name, annotation, [valid values])
@@ -132,6 +139,8 @@ def composites():
         ("dict[str,Point]", dict[str, Point], [{"p": Point(1, 2.0)}]),
         ("Optional[Point]", typing.Optional[Point], [None, Point(5, 6.0)]),
         ("Node", Node, [Node(1), Node(1, Node(2, Node(3))), Node(1, None, [Node(2), Node(3, Node(4))])]),
+        ("Derived(init=False field)", Derived, [Derived("n")]),
+        ("list[Derived]", list[Derived], [[Derived("a"), Derived("b")]]),
         ("UserId", UserId, [UserId(5)]),
         ("Final[int]", typing.Final[int], [3]),
         ("int|str", typing.Union[int, str], [1, "abc"]),
